@@ -646,3 +646,131 @@ Proof.
               ** rewrite cont_dels_cons in Hin. cbn [dels_of] in Hin. cbn [app]. rewrite cont_dels_cons. cbn [dels_of]. rewrite !in_app_iff in *. cbn in Hin.
                  destruct Hin as [Hin|[[Hin|Hin]|Hin]]; auto. congruence.
 Qed.
+
+(** ** beginning a command *)
+Lemma wh_add_new : forall st h st1 wi,
+  CInv (core st) -> h <> HReserved -> wh_add st h = Some (st1, wi) ->
+  forall x h', slab_get (sl st1) x = Some h' -> slab_get (sl st) x = Some h' \/ (x = wbit wi /\ h' = h) \/ h' = HReserved.
+Proof.
+  intros st h st1 wi I Hh H. pose proof (i_slab _ I) as S.
+  destruct (wh_add_core st h st1 wi H) as [c1 [A [B _]]].
+  pose proof (c_add_spec (core st) h c1 wi S Hh A) as P.
+  assert (Es : c_sl c1 = sl st1) by (destruct B; auto).
+  destruct P as [P1 P2 P3 P4 P5 P6 P7 P8]. rewrite Es in *. cbn [core c_sl] in *. exact P6.
+Qed.
+
+(** the slab gains entries; at most one of them belongs to a plain waker, with a fresh id *)
+Lemma d_ext : forall p st st' m (N : Prop) x0 w0,
+  SlInv st -> DRel p st m -> thr st' = thr st -> dl st' = dl st ->
+  (forall x h, slab_get (sl st) x = Some h -> slab_get (sl st') x = Some h) ->
+  (forall x w, slab_get (sl st') x = Some (HPlain w) -> slab_get (sl st) x = Some (HPlain w) \/ (N /\ x = x0 /\ w = w0)) ->
+  (N -> slab_get (sl st) x0 = None) ->
+  (N -> (0 <= w0 < 1000000 /\ wused st w0 = false /\ wused st' w0 = true) \/ (w0 = 1000000 + nfill st /\ nfill st' = nfill st + 1)) ->
+  (forall w, wused st w = true -> wused st' w = true) -> nfill st <= nfill st' ->
+  DRel p st' m.
+Proof.
+  intros p st st' m N x0 w0 S R Hth Hdl Hold Hnew Hfr Hw0 Hu Hn.
+  assert (Pl : pipeline st' = pipeline st) by (unfold pipeline; rewrite Hth, Hdl; reflexivity).
+  pose proof (d_nfill _ _ _ R) as Nf.
+  assert (Fresh : forall x, N -> slab_get (sl st) x <> Some (HPlain w0)).
+  { intros x Hn0 G. destruct (d_used _ _ _ R x w0 G) as [[A B]|A]; destruct (Hw0 Hn0) as [[C [D _]]|[C _]]; try congruence; lia. }
+  assert (Neg : forall w, 0 <= w < 1000000 -> wused st w = true -> (forall x, slab_get (sl st) x <> Some (HPlain w)) ->
+                forall x, slab_get (sl st') x <> Some (HPlain w)).
+  { intros w Hr Hw Ho x G. destruct (Hnew x w G) as [G0|[Hn0 [-> ->]]]; [exact (Ho x G0)|].
+    destruct (Hw0 Hn0) as [[_ [D _]]|[C _]]; [congruence|lia]. }
+  assert (Pg : forall w, prog st m w -> prog st' m w).
+  { intros w [A|[[x [A B]]|A]]; [left; exact A|right; left; exists x; rewrite Pl; auto|right; right; rewrite Hth; exact A]. }
+  constructor.
+  - apply (d_bad _ _ _ R).
+  - intros x y w G1 G2. destruct (Hnew x w G1) as [A|[Hn0 [F1 F2]]]; destruct (Hnew y w G2) as [B|[Hn1 [E1 E2]]].
+    + apply (d_uniq _ _ _ R x y w A B).
+    + subst. exfalso. exact (Fresh x Hn1 A).
+    + subst. exfalso. exact (Fresh y Hn0 B).
+    + congruence.
+  - intros x w G. destruct (Hnew x w G) as [A|[Hn0 [-> ->]]].
+    + destruct (d_used _ _ _ R x w A) as [[B C]|B]; [left; auto|right; lia].
+    + destruct (Hw0 Hn0) as [[C [_ D]]|[C D]]; [left; auto|right; lia].
+  - lia.
+  - rewrite Hth. apply (d_ypos _ _ _ R).
+  - rewrite Hth. apply (d_ymain _ _ _ R).
+  - intros w d H. rewrite Hth in H. destruct (d_y _ _ _ R w d H) as [D1 D2]. split; [exact D1|].
+    intro Hd. destruct (D2 Hd) as [E1 [E2 [E3 E4]]]. split; [exact E1|]. split; [apply Neg; auto|]. split; [exact E3|apply Hu; exact E4].
+  - intros w H. destruct (d_dead _ _ _ R w H) as [D1 [D2 D3]]. split; [exact D1|]. split; [apply Hu; exact D2|apply Neg; auto].
+  - intros u x w H. rewrite Hth in H. destruct (d_push _ _ _ R u x w H) as [D1 [D2 D3]]. auto.
+  - intros x w Hin G. rewrite Pl in Hin. destruct (Hnew x w G) as [A|[Hn0 [-> ->]]].
+    + destruct (d_pipe _ _ _ R x w Hin A) as [D1 [D2 D3]]. auto.
+    + exfalso. destruct (sl_occ _ S x0 Hin) as [h G0]. rewrite (Hfr Hn0) in G0. discriminate G0.
+  - intros w H. apply Pg. apply (d_done _ _ _ R w H).
+  - intros u w. rewrite Hth. intro Hc. destruct (d_cmd _ _ _ R u w Hc) as [D|[D1 [D2 [D3 [D4 D5]]]]]; [left; exact D|right].
+    split; [exact D1|]. split; [exact D2|]. split; [exact D3|]. split; [exact D4|]. destruct D5 as [D5|D5]; [left; exact D5|right; apply Pg; exact D5].
+  - intros u w H. rewrite Hth. apply (d_pbad _ _ _ R u w H).
+Qed.
+
+(** a thread with an empty continuation gets a new one (no handler call, no drop of a plain waker) *)
+Lemma d_frame : forall st st' m t,
+  DRel DNone st m ->
+  sl st' = sl st -> wused st' = wused st -> nfill st' = nfill st -> dl st' = dl st ->
+  tcont (thr st t) = [] ->
+  (forall u, u <> t -> tcont (thr st' u) = tcont (thr st u) /\
+     (forall w, tcur (thr st' u) = Some (CDropW w) -> tcur (thr st u) = Some (CDropW w) /\ tret (thr st' u) = tret (thr st u))) ->
+  (forall w, tcur (thr st' t) <> Some (CDropW w)) ->
+  (forall j, In j (tcont (thr st' t)) -> ~ is_yield j) ->
+  cont_dels (tcont (thr st' t)) = [] ->
+  (forall u x w, In (x, HPlain w) (tpushes (thr st' u)) -> In (x, HPlain w) (tpushes (thr st u))) ->
+  DRel DNone st' m.
+Proof.
+  intros st st' m t R Esl Ewu Enf Edl Hc Ho Hcur Hny Hcd Hp.
+  assert (Pl : pipeline st' = pipeline st).
+  { unfold pipeline. rewrite Edl. destruct (Nat.eq_dec main t) as [E|E]; [rewrite E, Hcd, Hc; reflexivity|rewrite (proj1 (Ho main E)); reflexivity]. }
+  assert (Pg : forall w, prog st m w -> prog st' m w).
+  { intros w [A|[[x [A B]]|A]]; [left; exact A|right; left; exists x; rewrite Pl, Esl; auto|].
+    destruct (Nat.eq_dec main t) as [E|E]; [rewrite E, Hc in A; destruct A|right; right; rewrite (proj1 (Ho main E)); exact A]. }
+  constructor.
+  - apply (d_bad _ _ _ R).
+  - rewrite Esl. apply (d_uniq _ _ _ R).
+  - rewrite Esl, Ewu, Enf. apply (d_used _ _ _ R).
+  - rewrite Enf. apply (d_nfill _ _ _ R).
+  - intros u i0 r0 j Hk Hj. destruct (Nat.eq_dec u t) as [->|Hu].
+    + apply Hny. rewrite Hk. right. exact Hj.
+    + rewrite (proj1 (Ho u Hu)) in Hk. apply (d_ypos _ _ _ R u i0 r0 j Hk Hj).
+  - intros u j Hu Hj. destruct (Nat.eq_dec u t) as [->|Hn]; [apply Hny; exact Hj|].
+    rewrite (proj1 (Ho u Hn)) in Hj. apply (d_ymain _ _ _ R u j Hu Hj).
+  - intros w d H. rewrite Esl, Ewu. destruct (Nat.eq_dec main t) as [E|E].
+    + exfalso. rewrite E in H. apply (Hny _ H). eexists; eexists; reflexivity.
+    + rewrite (proj1 (Ho main E)) in H. apply (d_y _ _ _ R w d H).
+  - rewrite Esl, Ewu. apply (d_dead _ _ _ R).
+  - intros u x w H. rewrite Ewu. apply (d_push _ _ _ R u x w). apply Hp. exact H.
+  - rewrite Pl, Esl, Ewu. apply (d_pipe _ _ _ R).
+  - intros w H. apply Pg. apply (d_done _ _ _ R w H).
+  - intros u w Hu. destruct (Nat.eq_dec u t) as [->|Hn]; [exfalso; exact (Hcur w Hu)|].
+    destruct (Ho u Hn) as [O1 O2]. destruct (O2 w Hu) as [O3 O4].
+    destruct (d_cmd _ _ _ R u w O3) as [[D _]|[D1 [D2 [D3 [D4 D5]]]]]; [discriminate D|right].
+    rewrite O1, O4. split; [exact D1|]. split; [exact D2|]. split; [exact D3|]. split; [exact D4|]. destruct D5 as [D5|D5]; [left; exact D5|right; apply Pg; exact D5].
+  - intros u w H. discriminate H.
+Qed.
+
+Lemma fill_loop_D : forall n st ev st' ev' p m,
+  CInv (core st) -> pristine st -> wfi st -> SlInv st -> DRel p st m -> fill_loop n st ev = (st', ev') -> DRel p st' m.
+Proof.
+  induction n as [|n IH]; intros st ev st' ev' p m I P Wf S R H; cbn [fill_loop] in H.
+  - inversion H; subst. exact R.
+  - destruct (wh_add st (HPlain (1000000 + nfill st))) as [[st1 wi]|] eqn:E; [|inversion H; subst; exact R].
+    destruct (sl_add_slab st (HPlain (1000000 + nfill st)) st1 wi I P S ltac:(discriminate) E) as [S1 _].
+    destruct (wh_add_core _ _ _ _ E) as [c1 [A [B [C1 [C2 [C3 [C4 [C5 [C6 [C7 C8]]]]]]]]]].
+    destruct (wh_add_post st (HPlain (1000000 + nfill st)) st1 wi I ltac:(discriminate) E) as [Hfresh [Hget [Hold [Ed [Et [En [Ew [Eu [Ec Ep]]]]]]]]].
+    assert (I1 : CInv (core st1)) by (eapply (add_model st _ st1 wi I); [|exact E]; discriminate).
+    eapply IH; [| | | | |exact H].
+    + eapply CInv_ceq; [|exact I1]. same_core.
+    + destruct P as [P0 P]. split; cbn; rewrite ?C2; auto. intros u Hu. rewrite C1. apply P. lia.
+    + destruct (wh_add_reg st (HPlain (1000000 + nfill st)) st1 wi I ltac:(discriminate) E) as [R0 _].
+      destruct Wf as [W1 [W2 W3]]. split; [|split].
+      * intros w0 wi0. cbn. rewrite C5. intro E0. apply R0. eapply W1; eauto.
+      * intros c0. cbn. rewrite C7. intro E0. apply R0. apply W2; auto.
+      * intros c0. cbn. rewrite C7. apply W3.
+    + sl_irr st1.
+    + apply (d_ext p st _ m True (wbit wi) (1000000 + nfill st) S R); cbn; auto.
+      * intros x w G. destruct (wh_add_new st (HPlain (1000000 + nfill st)) st1 wi I ltac:(discriminate) E x _ G) as [G0|[[-> G0]|G0]]; [left; exact G0| |discriminate G0].
+        inversion G0. right. auto.
+      * intros w Hw. rewrite Eu. exact Hw.
+      * lia.
+Qed.
